@@ -851,6 +851,8 @@ fn wakeup_strategy(t: Tier) -> BoxedStrategy<Scenario> {
             leave: 4,
             gates: true,
             blocking_only: true,
+            w_clone_tx: 1,
+            w_burst: 1,
             ..TrafficParams::default()
         },
             t,
